@@ -9,6 +9,7 @@
                                    given properties (default: the seed's own property), undo.
 """
 import json
+import re
 import os
 import shutil
 import subprocess
@@ -54,7 +55,7 @@ def ingest(pid, which, srcroot="/tmp/seed", base=None):
             shutil.copy(os.path.join(src, f), os.path.join(wt, target_dir, f))
             placed.append(os.path.join(target_dir, f))
         cmd = meta["demo_cmd"]
-        cmd = cmd.replace("/tmp/seed/wt-%s" % pid, wt).replace("/tmp/seed2/wt-%s" % pid, wt).replace("/tmp/seed3/wt-%s" % pid, wt).replace("/tmp/seed4/wt-%s" % pid, wt).replace("/tmp/seed5/wt-%s" % pid, wt)
+        cmd = re.sub(r"/tmp/seed\d*/wt-%s\b" % pid, wt, cmd)
         if "cd " not in cmd:
             cmd = "cd %s && %s" % (wt, cmd)
         # without the change
